@@ -75,7 +75,8 @@ type hworld struct {
 type hopts struct {
 	acc, othAcc [8]byte
 	withChat    bool
-	reqNoAgreed bool
+	reqState    string // the requester's own state: "" / "agreed", "old", "pre", "noname" (see Authz!R)
+	othLogin    string // account of the second client ("" = other); "req": a second session of the requester's account
 	orphan      bool   // an account file Users/newacct.yaml that the account manager does not know
 	third       string // "", "none", "same" (bystander from the second client's address), "other" (from another address)
 	pacc        [8]byte
@@ -122,7 +123,7 @@ func allDefinedBut(skip ...int) [8]byte {
 // folder holding a partial upload, a drop box and a destination folder; accounts req / other / victim / spare;
 // threaded news with a bundle, a category and one article; a message board; requester and a second client logged in.
 func newHWorld(o hopts) (*hworld, error) {
-	acc, othAcc, withChat, reqNoAgreed := o.acc, o.othAcc, o.withChat, o.reqNoAgreed
+	acc, othAcc, withChat := o.acc, o.othAcc, o.withChat
 	w, err := sim.NewWorld(sim.WorldOpts{
 		Accounts: []sim.Acct{
 			// (accounts are written without privileges; the case's bitmaps are set below through the real manager)
@@ -195,12 +196,32 @@ func newHWorld(o hopts) (*hworld, error) {
 		return fail(err)
 	}
 	h.oth = w.Dial("")
-	if rep, err := h.oth.Login(sim.LoginOpts{Login: "other", Password: "op", Name: "Other", Icon: 7}); err != nil || rep.Err != 0 {
+	ol, op := "other", "op"
+	if o.othLogin == "req" {
+		ol, op = "req", "rp"
+	}
+	if rep, err := h.oth.Login(sim.LoginOpts{Login: ol, Password: op, Name: "Other", Icon: 7}); err != nil || rep.Err != 0 {
 		return fail(fmt.Errorf("login other: %v err=%d", err, rep.Err))
 	}
 	h.req = w.Dial("")
-	if rep, err := h.req.Login(sim.LoginOpts{Login: "req", Password: "rp", Name: reqLoginName, Icon: 5, NoAgreed: reqNoAgreed}); err != nil || rep.Err != 0 {
+	lo := sim.LoginOpts{Login: "req", Password: "rp", Name: reqLoginName, Icon: 5}
+	switch o.reqState {
+	case "", "agreed":
+	case "old":
+		lo.Old = true
+	case "pre", "noname":
+		lo.NoAgreed = true
+	default:
+		return fail(fmt.Errorf("requester state %q", o.reqState))
+	}
+	if rep, err := h.req.Login(lo); err != nil || rep.Err != 0 {
 		return fail(fmt.Errorf("login req: %v err=%d", err, rep.Err))
+	}
+	if o.reqState == "noname" {
+		// an Agreed that carries no name field
+		if rep, err := h.req.Request(sim.TAgreed, sim.Fld(sim.FUserIconID, sim.U16(5)), sim.Fld(sim.FOptions, sim.U16(0))); err != nil || rep.Err != 0 {
+			return fail(fmt.Errorf("agreed without name: %v", err))
+		}
 	}
 	if h.req.ID() < 0 || h.oth.ID() < 0 {
 		return fail(fmt.Errorf("clients not registered"))
@@ -383,7 +404,8 @@ func needsChat(t int, k string) bool {
 
 // buildReq translates (transaction type, context) into the request's fields.  The contexts are those of
 // Authz!Table; every request is otherwise valid in the world built by newHWorld.
-func (h *hworld) buildReq(t int, kv string) ([]sim.F, error) {
+func (h *hworld) buildReq(t int, kvs string) ([]sim.F, error) {
+	kv, _, _ := strings.Cut(kvs, "@") // "@<state>" is about the requester, not the request
 	k, variant, _ := strings.Cut(kv, "/")
 	f, err := h.baseReq(t, k, variant)
 	if err != nil || variant == "" {
@@ -818,9 +840,13 @@ func runHandle(c map[string]any, ev map[string]any) error {
 	t := intOf(c["t"])
 	k, _ := c["k"].(string)
 	acc := bitmapOf(c["acc"])
-	base, _, _ := strings.Cut(k, "/")
-	h, err := newHWorld(hopts{acc: acc, othAcc: allDefinedBut(23), withChat: needsChat(t, base) || (t == 112 && strings.HasSuffix(k, "/chat")),
-		reqNoAgreed: t == 121, orphan: strings.HasSuffix(k, "/orphan")})
+	kv, state, _ := strings.Cut(k, "@")
+	base, _, _ := strings.Cut(kv, "/")
+	if t == 121 && state == "" {
+		state = "pre" // an Agreed is normally the request that completes the login
+	}
+	h, err := newHWorld(hopts{acc: acc, othAcc: allDefinedBut(23), withChat: needsChat(t, base) || (t == 112 && strings.HasSuffix(kv, "/chat")),
+		reqState: state, orphan: strings.HasSuffix(kv, "/orphan")})
 	if err != nil {
 		return err
 	}
